@@ -542,6 +542,24 @@ class Evaluator:
         bindvars(st.target)
         if st.orelse:
             raise Unreadable("for-else")
+        # existential idiom: `for x in it: if c(x): return <literal>`  ==  if any(c(x) for x in it): return <literal>
+        if len(st.body) == 1 and isinstance(st.body[0], ast.If) and not st.body[0].orelse and len(st.body[0].body) == 1 \
+                and isinstance(st.body[0].body[0], ast.Return) and isinstance(st.body[0].body[0].value, ast.Constant):
+            fc = self.cond_alts(st.body[0].test, lv_env, ctx)
+            if len(fc) != 1 or fc[0][0]:
+                raise Unreadable("existential loop condition")
+            tr = [cc for truth, cc in fc[0][1] if truth]
+            if len(tr) != 1:
+                raise Unreadable("existential loop condition (disjunctive)")
+            c = Cond("true", ("any", it_term, frozenset(tr[0])))
+            rv = st.body[0].body[0].value.value
+            out = []
+            for truth, cc in self._split(c):
+                if truth:
+                    out.append((conds | cc, env, NONE if rv is None else Lit(rv)))
+                else:
+                    out.append((conds | cc, env, None))
+            return out
         if self.effects_mode and ctx.depth == 0 and self._has_effects(st.body):
             inner_env = dict(lv_env)
             inner_env["$fx"] = ()
@@ -958,6 +976,13 @@ class Evaluator:
             if len(tr) != 1:
                 raise Unreadable("comprehension filter")
             filt |= tr[0]
+        if isinstance(node.elt, (ast.Compare, ast.BoolOp)) or (isinstance(node.elt, ast.UnaryOp) and isinstance(node.elt.op, ast.Not)):
+            fc = self.cond_alts(node.elt, e2, ctx)
+            if len(fc) == 1 and not fc[0][0]:
+                tr = [cc for truth, cc in fc[0][1] if truth]
+                if len(tr) == 1:
+                    return Seq(it_term, BoolElt(frozenset(tr[0])), filt)
+            raise Unreadable("boolean comprehension element")
         vs = self.ev(node.elt, e2, ctx)
         if len(vs) != 1 or vs[0][0]:
             raise Unreadable("piecewise comprehension element")
@@ -1253,6 +1278,9 @@ class Evaluator:
                     acc = acc + self.as_num(i, node, ctx)
                 return [(frozenset(), acc)]
             return [(frozenset(), Rat.atom(("sum", as_term(v), None)))]
+        if short == "any" and len(pos) == 1 and isinstance(pos[0], Seq) and isinstance(pos[0].elt, BoolElt) and not isinstance(fv, FuncRef):
+            c = Cond("true", ("any", pos[0].it, frozenset(pos[0].elt.conds | pos[0].filt)))
+            return [(cc, Lit(truth)) for truth, cc in self._split(c)]
         if short == "len" and len(pos) == 1:
             return [(frozenset(), Rat.atom(("len", as_term(pos[0]))))]
         if short == "round" and not isinstance(fv, FuncRef):
@@ -1418,6 +1446,23 @@ class Seq:
 
     def __repr__(self):
         return f"[{self.elt!r} for _ in {self.it!r}" + (f" if {set(self.filt)!r}" if self.filt else "") + "]"
+
+
+class BoolElt:
+    """Element of a boolean comprehension: the conjunction of conditions under which it is true."""
+    __slots__ = ("conds",)
+
+    def __init__(self, conds):
+        self.conds = conds
+
+    def __eq__(self, o):
+        return isinstance(o, BoolElt) and self.conds == o.conds
+
+    def __hash__(self):
+        return hash(self.conds)
+
+    def __repr__(self):
+        return f"<{sorted(map(repr, self.conds))}>"
 
 
 class Obj:
